@@ -70,6 +70,8 @@ def run_case(case):
         else:
             s_dw, s_gran = dw, gran
             s_aw = rng.randint(0, max(0, (aw - 6) if many else (aw - 1)))
+            if case["nsubs"] == 1 and rng.random() < 0.5:
+                s_aw = aw          # one window spanning the decoder's whole address range
             s_map_aw = max(1, s_aw + gbits)
         if s_map_aw >= map_aw and not (s_map_aw == map_aw and case["nsubs"] == 1):
             continue
